@@ -1787,4 +1787,84 @@ theorem fixed_templates_examples :
   decide
 
 
+
+/-! ### the flat phase-one model agrees with `deser` (Sem/Deser.lean) -/
+
+theorem isOk_dValidated (r : R PyVal) (v : PyVal) : isOk (dValidated r v) = isOk r := by
+  cases r <;> rfl
+
+theorem isOk_toValueErr {α} (r : R α) : isOk (toValueErr r) = isOk r := by
+  cases r with
+  | ok y => rfl
+  | error e => cases e <;> rfl
+
+theorem isOk_mapE {α β} (g : α → R β) (xs : List α) : isOk (mapE g xs) = xs.all fun x => isOk (g x) := by
+  induction xs with
+  | nil => rfl
+  | cons x xs ih =>
+    simp only [mapE, List.all_cons]
+    cases hg : g x with
+    | error e => simp [isOk]
+    | ok y =>
+      simp only [bindE_ok]
+      cases hm : mapE g xs with
+      | error e => rw [hm] at ih; simp [isOk] at ih ⊢; exact ih
+      | ok ys => rw [hm] at ih; simp [isOk] at ih ⊢; exact ih
+
+/-- scalars: `p1Scalar` (validate without the sign mixin) is exactly `deser` rejecting, for every
+    scalar declaration and every non-None document value -/
+theorem p1Scalar_eq_deser (O : Oracles) (opts : DeserOpts) (f : FieldDecl) (v : PyVal)
+    (hs : isScalarDecl f = true) :
+    p1Scalar O f v = !isOk (deser O opts false f v) := by
+  cases f <;> simp only [isScalarDecl, Bool.false_eq_true] at hs <;>
+    simp only [p1Scalar, stripSign, validate, deser, Bool.and_false, Bool.false_eq_true, if_false,
+      isOk_dValidated, noSign]
+  case enumCls cls names =>
+    cases v <;> simp only [dEnumCls, vEnumCls, isOk_dValidated]
+
+/-- some element is rejected by the item field, in both models -/
+theorem p1_elems_eq_deser (O : Oracles) (opts : DeserOpts) (item : FieldDecl) (xs : List PyVal)
+    (hs : isScalarDecl item = true) :
+    xs.any (p1Scalar O item) = !isOk (toValueErr (mapE (deser O opts false item) xs)) := by
+  have h2 : isOk (toValueErr (mapE (deser O opts false item) xs)) =
+      xs.all fun x => isOk (deser O opts false item x) := by
+    rw [isOk_toValueErr]; exact isOk_mapE _ xs
+  rw [h2]
+  cases h3 : (xs.all fun x => isOk (deser O opts false item x)) with
+  | true =>
+    show xs.any (p1Scalar O item) = false
+    rw [List.any_eq_false]
+    intro x hx
+    have hx' := (List.all_eq_true.1 h3) x hx
+    rw [p1Scalar_eq_deser O opts item x hs, hx']; simp
+  | false =>
+    show xs.any (p1Scalar O item) = true
+    obtain ⟨x, hx, hb⟩ := List.all_eq_false.1 h3
+    rw [List.any_eq_true]
+    exact ⟨x, hx, by rw [p1Scalar_eq_deser O opts item x hs]; simpa using hb⟩
+
+/-- Array / Deque / Tuple[X] of scalars: the flat phase-one model `p1Rejects` and `deser` agree on
+    every document value -/
+theorem p1Rejects_homog_eq_deser (O : Oracles) (opts : DeserOpts) (item : FieldDecl) (v : PyVal)
+    (hs : isScalarDecl item = true) :
+    (∀ k sz, p1Rejects O (.seqOf k item sz) v = !isOk (deser O opts false (.seqOf k item sz) v)) ∧
+    (∀ u, p1Rejects O (.tupleOf item u) v = !isOk (deser O opts false (.tupleOf item u) v)) := by
+  have hl : listLike v = docSeq v := by cases v <;> rfl
+  constructor
+  · intro k sz
+    simp only [p1Rejects, deser, Bool.and_false, Bool.false_eq_true, if_false, dSeq, hl]
+    cases docSeq v with
+    | none => rfl
+    | some xs =>
+      simp only [p1_elems_eq_deser O opts item xs hs]
+      cases toValueErr (mapE (deser O opts false item) xs) <;> rfl
+  · intro u
+    simp only [p1Rejects, deser, Bool.and_false, Bool.false_eq_true, if_false, dSeq, hl]
+    cases docSeq v with
+    | none => rfl
+    | some xs =>
+      simp only [p1_elems_eq_deser O opts item xs hs]
+      cases toValueErr (mapE (deser O opts false item) xs) <;> rfl
+
+
 end Typedpy.C18
